@@ -9,7 +9,7 @@ ORACLE_RND = T(
      dict(n=10, len=30, procs=6, cfg="users=3,provs=2,funds=45,maxfeeds=2,maxtimeout=2")],
     [dict(n=60, len=40, procs=7, cfg="users=2,provs=3,funds=60,maxfeeds=3,maxtimeout=3"),
      dict(n=60, len=40, procs=7, cfg="users=3,provs=2,funds=45,maxfeeds=2,maxtimeout=2")])
-ORACLE_GEN = T([dict(cfg="GEN_Oracle.cfg", num=14, depth=24, seeds=10)],
+ORACLE_GEN = T([dict(cfg="GEN_Oracle.cfg", num=12, depth=24, seeds=8)],
                [dict(cfg="GEN_Oracle.cfg", num=60, depth=28, seeds=14)])
 ORACLE_MC = T([dict(cfg="MC_Oracle.cfg", timeout=1500),
                # the oracle-price module service and btc-priced bindings (diagnostic clauses X17_*)
